@@ -10,7 +10,7 @@ import (
 
 const c10Rule = "per case: backend x config TimeToLive {default, Unlimited, log-uniform 1ns..146y} x ExpirationJitter {off, default, (0,1]} and 1-4 writes with " +
 	"context TTL {none, +/- log-uniform 1ns..146y}; expiry read back through Walk and compared with the closed-form instant/band, then the fake clock is moved " +
-	"to exactly E (fresh) and E+1ns (ErrExpired, ExpiredAt == E); non-trivial = jitter enabled, or a context TTL overriding a different config TTL, or a negative TTL"
+	"to E-1ns (fresh), exactly E (either) and E+1ns (ErrExpired, ExpiredAt == E); non-trivial = jitter enabled, or a context TTL overriding a different config TTL, or a negative TTL"
 
 // TestC10ExpiryBounds: every entry's expiry lies within the documented TTL bounds.
 func TestC10ExpiryBounds(t *testing.T) {
@@ -176,9 +176,26 @@ func propExpiryBounds(c *Case) {
 
 			now := time.Now().UnixNano()
 			if e >= now {
-				r := be.Read(bg, key)
-				c.Assert(r.Err == nil && valEq(be.Generic(), r.Val, val), "read-before-expiry",
-					"read at write time = (%v, %v), entry expires at +%d", r.Val, r.Err, e-now)
+				if e > now {
+					r := be.Read(bg, key)
+					c.Assert(r.Err == nil && valEq(be.Generic(), r.Val, val), "read-before-expiry",
+						"read at write time = (%v, %v), entry expires at +%d", r.Val, r.Err, e-now)
+				}
+
+				// one nanosecond before the instant the entry is still fresh
+				if e-now > 1 {
+					if !safeSleep(time.Duration(e - now - 1)) {
+						c.Class("clock-budget-exhausted")
+
+						return
+					}
+
+					now = time.Now().UnixNano()
+
+					r := be.Read(bg, key)
+					c.Assert(r.Err == nil && valEq(be.Generic(), r.Val, val), "read-before-expiry",
+						"read 1ns before the expiry instant = (%v, %v), want the value", r.Val, r.Err)
+				}
 
 				if !safeSleep(time.Duration(e - now)) {
 					c.Class("clock-budget-exhausted")
@@ -186,9 +203,10 @@ func propExpiryBounds(c *Case) {
 					return
 				}
 
-				r = be.Read(bg, key)
-				c.Assert(r.Err == nil && valEq(be.Generic(), r.Val, val), "read-at-expiry",
-					"read exactly at the expiry instant = (%v, %v), want the value", r.Val, r.Err)
+				// exactly at the expiry instant either outcome is allowed ("before ... after")
+				r := be.Read(bg, key)
+				okAt := (r.Err == nil && valEq(be.Generic(), r.Val, val)) || (r.Expired && r.ExpAt.UnixNano() == e && valEq(be.Generic(), r.ExpVal, val))
+				c.Assert(okAt, "read-at-expiry", "read exactly at the expiry instant = (%v, %v), want the value or ErrExpired carrying it", r.Val, r.Err)
 
 				time.Sleep(time.Nanosecond)
 			} else {
